@@ -151,6 +151,39 @@ _CLAMPS = re.compile(r"::(saturating_sub|saturating_add|saturating_sub_unsigned|
 _CMP = ("Lt", "Le", "Gt", "Ge", "Eq", "Ne")
 
 
+def single_index_sites(ctx, fn, b):
+    """[(block, callee, n_calls_on_flow, clamps, related)] for element accesses of stored sequences
+    in b whose index derives from a signed integer parameter"""
+    import flow
+    out = []
+    sparams = [l for l in range(1, b.nargs + 1) if re.match(r"^(isize|i64|i32|i128)$", b.locals[l] or "")]
+    if not sparams:
+        return out
+    for i, t in b.calls():
+        if not _ELEM_ACCESS.match(t["f"] or "") or b.bbs[i]["cleanup"] or len(t["a"]) < 2:
+            continue
+        idx = t["a"][1]
+        if op_is_const(idx):
+            continue
+        P = prov.operand_origins(b, idx, deep=True)
+        if not (P.params() & set(sparams)):
+            continue
+        calls = flow.flow_calls(ctx, fn, idx, seen={(fn, p) for p in range(1, b.nargs + 1)})
+        clamps = sorted((c, w, bb) for (c, w, bb) in calls if _CLAMPS.search(c or ""))
+        # a comparison relating the index parameter and the length, dominating the access
+        related = False
+        for d in [x for x in range(len(b.bbs)) if cfg.dominates(b, x, i)]:
+            for st in b.bbs[d]["s"]:
+                if st["k"] == "=" and st["r"]["k"] == "bin" and st["r"].get("op") in _CMP:
+                    Q = [prov.operand_origins(b, o, deep=True) for o in (st["r"]["a"], st["r"]["b"]) if not op_is_const(o)]
+                    has_p = any(q.params() & set(sparams) for q in Q)
+                    has_len = any(q.has_call(r"::len$") for q in Q)
+                    if has_p and has_len:
+                        related = True
+        out.append((i, t["f"], len(calls), clamps, related))
+    return out
+
+
 def rule_idx_single(ctx, R):
     """LINDEX / LSET address ONE element: an index outside [-len, len) is refused (nil / `index out
     of range`), never moved to the nearest element.  In the storage methods behind them the index
@@ -158,44 +191,20 @@ def rule_idx_single(ctx, R):
     wrapping step (saturating_*, max / min / clamp, rem_euclid, unwrap_or) on its interprocedural
     value flow -- unless a comparison relating the parameter to the list's length dominates the
     access (the clamp is then a no-op behind a range check).  Clamping is what the RANGE commands do."""
-    import flow
     reach = rules_cmd.arms_reach(ctx, ("LINDEX", "LSET"))
     n = 0
     for fn in sorted(reach):
         b = ctx.prog.bodies.get(fn)
         if b is None or not fn.startswith("storage::") or "::tests::" in fn or b.kind == "Closure":
             continue
-        sparams = [l for l in range(1, b.nargs + 1) if re.match(r"^(isize|i64|i32|i128)$", b.locals[l] or "")]
-        if not sparams:
-            continue
-        for i, t in b.calls():
-            if not _ELEM_ACCESS.match(t["f"] or "") or b.bbs[i]["cleanup"] or len(t["a"]) < 2:
-                continue
-            if not shared.from_dataset(b, t["a"][0]):
-                continue
-            idx = t["a"][1]
-            if op_is_const(idx):
-                continue
-            P = prov.operand_origins(b, idx, deep=True)
-            if not (P.params() & set(sparams)):
+        for i, f, ncalls, clamps, related in single_index_sites(ctx, fn, b):
+            if not shared.from_dataset(b, b.term(i)["a"][0]):
                 continue
             n += 1
-            calls = flow.flow_calls(ctx, fn, idx, seen={(fn, p) for p in range(1, b.nargs + 1)})
-            clamps = sorted((c, w, bb) for (c, w, bb) in calls if _CLAMPS.search(c or ""))
-            # a comparison relating the index parameter and the length, dominating the access
-            related = False
-            for d in [x for x in range(len(b.bbs)) if cfg.dominates(b, x, i)]:
-                for st in b.bbs[d]["s"]:
-                    if st["k"] == "=" and st["r"]["k"] == "bin" and st["r"].get("op") in _CMP:
-                        Q = [prov.operand_origins(b, o, deep=True) for o in (st["r"]["a"], st["r"]["b"]) if not op_is_const(o)]
-                        has_p = any(q.params() & set(sparams) for q in Q)
-                        has_len = any(q.has_call(r"::len$") for q in Q)
-                        if has_p and has_len:
-                            related = True
-            R.inst(fn, "element-access:%s" % shared.short_callee(t["f"]), {"function": fn, "at": b.loc(i), "calls_on_the_index_flow": len(calls), "clamping": [shared.short_callee(c) for c, _, _ in clamps][:3], "range_comparison_dominates": related})
+            R.inst(fn, "element-access:%s" % shared.short_callee(f), {"function": fn, "at": b.loc(i), "calls_on_the_index_flow": ncalls, "clamping": [shared.short_callee(c) for c, _, _ in clamps][:3], "range_comparison_dominates": related})
             if clamps and not related:
                 c, w, bb = clamps[0]
-                R.finding(fn, "element-access:%s:index-clamped" % shared.short_callee(t["f"]).split("::")[-1],
+                R.finding(fn, "element-access:%s:index-clamped" % shared.short_callee(f).split("::")[-1],
                           "%s reaches the element at an index that went through %s (%s) with no comparison of the index against the list's length before it: an index below -len is moved onto the head instead of being refused (LINDEX answers an element, LSET overwrites one)" % (
                               fn.split("::")[-1], shared.short_callee(c), ctx.prog.bodies[w].loc(bb)), b.loc(i))
     R.floor("single_element_accesses_by_client_index", n)
